@@ -31,7 +31,7 @@ CLAUSE_PROPERTY = {
     "PolicyBeforeWarmup": "C13", "ExploreOnlyInWarmup": "C13",
     "FrozenComponentChanged": "C05", "StoringChangesNothing": "C05", "ActingChangesNothing": "C05", "TrainedOnlyWhenDue": "C05",
     "UpdateMissing": "C05", "ChangeOutsideLearning": "C05",
-    "HardCopyIsCopy": "C06", "TargetLawInRun": "C06", "CopyGroupIncomplete": "C06", # a target / frozen copy changing where no update of it is due means some update routine changed a component it
+    "ResultComponentsDistinct": ("C05", "C06"), "HardCopyIsCopy": "C06", "TargetLawInRun": "C06", "CopyGroupIncomplete": "C06", # a target / frozen copy changing where no update of it is due means some update routine changed a component it
     # does not train (C05) and the target did not follow its cadence (C06)
     "TargetsOnlyAtUpdatePoints": ("C05", "C06"), "TargetUpdateMissing": "C06", "TargetChangeOutsideLearning": ("C05", "C06"),
 }
